@@ -1547,7 +1547,7 @@ pub fn step<const N: usize, P: Pad>(
                     sig(op, N, lay, &format!("panicked_instead_of_result@{}", short_loc(loc))),
                     format!("{:?} panicked: {} at {}; case={}", op, msg, loc, ctx.cur_case),
                 );
-                if also != "C01" && op.is_mutator() {
+                if matches!(also, "C02" | "C09" | "C10") {
                     ctx.violation("C01", sig(op, N, lay, &format!("panicked_instead_of_result@{}", short_loc(loc))), format!("{:?} panicked: {} at {}", op, msg, loc));
                 }
                 // contents are whatever is there now
@@ -1591,7 +1591,7 @@ pub fn step<const N: usize, P: Pad>(
                         sig(op, N, lay, "wrong_return"),
                         format!("{:?}: {}; before={:?}; case={}", op, e, before, ctx.cur_case),
                     );
-                    if op.is_mutator() && prop != "C01" {
+                    if matches!(prop, "C02" | "C09") {
                         ctx.violation("C01", sig(op, N, lay, "wrong_return"), format!("{:?}: {}", op, e));
                     }
                     if matches!(op, Op::ToVec) {
@@ -1628,6 +1628,8 @@ pub fn step<const N: usize, P: Pad>(
                         let prop = match op {
                             Op::PushBack | Op::PushFront | Op::TryPushBack | Op::TryPushFront => "C02",
                             Op::Drain(..) => "C09",
+                            Op::CloneFrom(_) => "C12",
+                            _ if !op.is_mutator() => "C07",
                             _ => "C01",
                         };
                         ctx.violation(
@@ -1635,11 +1637,8 @@ pub fn step<const N: usize, P: Pad>(
                             sig(op, N, lay, "wrong_contents"),
                             format!("{:?}: {}; before={:?} after={:?}; case={}", op, e, before, post.pairs(), ctx.cur_case),
                         );
-                        if prop != "C01" {
+                        if matches!(prop, "C02" | "C09") {
                             ctx.violation("C01", sig(op, N, lay, "wrong_contents"), format!("{:?}: {}", op, e));
-                        }
-                        if matches!(op, Op::CloneFrom(_)) {
-                            ctx.violation("C12", sig(op, N, lay, "wrong_contents"), format!("{:?}: {}; case={}", op, e, ctx.cur_case));
                         }
                         *model = post.pairs();
                         out.resynced = true;
